@@ -119,6 +119,13 @@ func NewDir(conf config.Config, opts ...Opts) Store {
 	if d.log == nil {
 		d.log = slog.New(sloghandle.Discard)
 	}
+	if !*d.conf.Storage.ReadOnly && d.root != "" {
+		// the root is created when the store is opened, requests only create directories below it
+		//#nosec G301 directory permissions are intentionally world readable.
+		if err := os.MkdirAll(d.root, 0755); err != nil {
+			d.log.Warn("failed to create root directory", "dir", d.root, "err", err)
+		}
+	}
 	if !*d.conf.Storage.ReadOnly && d.conf.Storage.GC.Frequency > 0 {
 		d.wg.Add(1)
 		go d.gcTicker()
